@@ -215,6 +215,24 @@ class CFG:
             return self._with(s, list(s.items), preds, ctx)
         if isinstance(s, ast.Try):
             return self._try(s, preds, ctx)
+        if hasattr(ast, 'Match') and isinstance(s, ast.Match):
+            # a match that sa/desugar.py could not turn into an if-chain (patterns that bind names): one opaque test per
+            # case, `__match__(subject, '<pattern>')`, bindings treated as assignments by nobody (the names stay unknown)
+            out = []
+            cur = preds
+            for c in s.cases:
+                t_ast = ast.Call(func=ast.Name(id='__match__', ctx=ast.Load()),
+                                 args=[s.subject, ast.Constant(value=ast.unparse(c.pattern))], keywords=[])
+                if c.guard is not None:
+                    t_ast = ast.BoolOp(op=ast.And(), values=[t_ast, c.guard])
+                ast.copy_location(t_ast, c.pattern)
+                ast.fix_missing_locations(t_ast)
+                t = self._new('test', t_ast)
+                self._connect(cur, t)
+                self._edge(t, ctx.exc(), 'exc')
+                out += self._block(c.body, [(t, 'true')], ctx)
+                cur = [(t, 'false')]
+            return out + cur
         raise AnalysisError(f'CFG: unsupported statement kind {type(s).__name__} at line {getattr(s, "lineno", "?")}')
 
     def _finally_ctx(self, final_stmts, ctx):
